@@ -298,8 +298,10 @@ Crash(tear) ==
 \* ---------------------------------------------------------------- write faults
 \* The file operation in flight fails: mode "err" (nothing written) or "short" (part written, then the
 \* error).  The call returns the error; the rest of its file operations are not performed.
+\* (a writer whose creation fails may also remove the unfinished file)
 FaultImages(mode) ==
-  IF mode = "err" \/ TornImages(Head(pend)) = {} THEN {disk} ELSE TornImages(Head(pend))
+  (IF mode = "err" \/ TornImages(Head(pend)) = {} THEN {disk} ELSE TornImages(Head(pend)))
+  \cup (IF Head(pend) \in {"hdr0", "name"} THEN {NoDisk} ELSE {})
 
 Fault(mode) ==
   /\ pend # <<>>
